@@ -57,7 +57,39 @@ def run(ctx, out, cases, project, truth_project, label, nontrivial):
             out.model_bug(label, rp, model=common.short(str(py)), promised=common.short(str(pt)))
 
 
+def stable_under_reads(ctx, out, cases, label):
+    """the parsed track must still read the same after derived attributes and rate queries have been read (a sample)"""
+    ins, dif = impl.enums()
+    for src, R in cases[: ctx.n(40, 2000)]:
+        c, e, _ = impl.parse(R.text)
+        if c is None:
+            continue
+        before = impl.dump_chart(c, [])
+        for i, dd in c.instrument_tracks.items():
+            for d, tr in dd.items():
+                tr.last_note_end_timestamp
+                tr.header_tag
+                for n in tr.note_events[:3]:
+                    n.longest_sustain, n.end_tick
+                try:
+                    c.notes_per_second(i, d)
+                except ValueError:
+                    pass
+        after = impl.dump_chart(c, [])
+        if before != after:
+            p_, q_ = fw.first_diff(before, after)
+            out.violation("reads-" + fw.h(R.text), f"{label}: the parsed track reads differently after derived attributes / notes_per_second were read: {p_[:120]!r} vs {q_[:120]!r}",
+                          {**common.chart_replay(R.text), "reads": True}, observed=q_, promised=p_)
+
+
 def replay_chart(data, project):
+    if data.get("reads"):
+        o = fw.Outcome("")
+        src = gen.ChartSrc(1, {}, [], [], [], [], [])
+        class _R:  # noqa: N801
+            text = data["text"]
+        stable_under_reads(fw.Ctx("C00", "quick", 0), o, [(src, _R)], "replay")
+        return bool(o.violations), str(o.violations[:1])[:300]
     x = impl.run_chart(data["text"])
     if x.startswith("E "):
         return True, x
